@@ -56,6 +56,13 @@ def shard(arg):
             v = check(ws, {"op": "green.greenback", "depth": depth}, out, case, depth >= 2, ["greenback", "greenback.depth.%d" % depth])
             if v:
                 out.violation(v[0]["desc"], case, "3.12", obs=v[0].get("obs"))
+            for spawn in (1, 2):
+                # the synchronous levels run their await_ bridge in greenlets nested below the portal's (inside view only)
+                case = {"greenback_depth": depth, "spawn": spawn}
+                v = check(ws, {"op": "green.greenback", "depth": depth, "spawn": spawn}, out, case, depth >= 1,
+                          ["greenback", "greenback.bridge_from_nested_greenlet.%d" % spawn])
+                if v:
+                    out.violation(v[0]["desc"], case, "3.12", obs=v[0].get("obs"))
         for depth in arg["gb_depths"]:
             for err in (True, False):
                 case = {"greenback_asyncio_depth": depth, "error_resume": err}
